@@ -44,6 +44,29 @@ pub fn c02h_bulk_u32_4097() {
 	}
 	core::mem::forget(r);
 }
+/// C08 at real scale: wide elements across more than one 16 KiB chunk from an input that cannot report its length, vs a slice
+#[cfg(feature = "c08")]
+#[kani::proof]
+#[kani::unwind(4)]
+pub fn c08h_unknown_length_multi_chunk_u32() {
+	const N: usize = 4097;
+	let bytes: [u8; 4 * N + 1] = kani::any();
+	let mut a = Unk(&bytes[..]);
+	let ra = parity_scale_codec::decode_vec_with_len::<u32, _>(&mut a, N);
+	let mut b = &bytes[..];
+	let rb = parity_scale_codec::decode_vec_with_len::<u32, _>(&mut b, N);
+	match (&ra, &rb) {
+		(Ok(x), Ok(y)) => {
+			assert!(x.len() == N && y.len() == N && a.0.len() == 1 && b.len() == 1, "multi-chunk decode: consumption depends on the input kind");
+			let i: usize = kani::any();
+			kani::assume(i < N);
+			assert!(x[i] == y[i], "multi-chunk decode of wide elements depends on the input kind");
+		},
+		_ => assert!(false, "multi-chunk decode failed on complete input"),
+	}
+	core::mem::forget((ra, rb));
+}
+
 /// C01: the 2^14 count-prefix boundary on the encode side with a real collection (bulk write)
 #[cfg(feature = "c01")]
 #[kani::proof]
@@ -86,18 +109,20 @@ impl Default for Pad8191 { fn default() -> Self { Pad8191([0; 8191]) } }
 #[derive(Decode)]
 pub struct BigElem { pub x: u8, #[codec(skip)] pub pad: Pad8191 }
 fn big_elems<const C: usize>() {
+	// exactly C input bytes (every truncation point is the business of C03/C09's chunk-progress harnesses)
 	let bytes: [u8; C] = kani::any();
-	let len: usize = kani::any();
-	kani::assume(len <= C);
-	let mut inp = Unk(&bytes[..len]);
+	let mut inp = Unk(&bytes[..]);
 	let r = parity_scale_codec::decode_vec_with_len::<BigElem, _>(&mut inp, C);
-	assert!(r.is_ok() == (len == C), "element-path decode across chunk reservations: wrong acceptance");
-	if let Ok(v) = &r {
-		assert!(v.len() == C);
-		let mut i = 0;
-		while i < C { assert!(v[i].x == bytes[i], "element changed across a chunk reservation"); i += 1; }
+	match &r {
+		Ok(v) => {
+			assert!(v.len() == C && inp.0.is_empty(), "element-path decode across chunk reservations lost or added elements");
+			let i: usize = kani::any();
+			kani::assume(i < C);
+			assert!(v[i].x == bytes[i], "element changed across a chunk reservation");
+		},
+		Err(_) => assert!(false, "element-path decode across chunk reservations failed on complete input"),
 	}
 	core::mem::forget(r);
 }
-#[cfg(feature = "c02")] with_stubs!(le_32k, #[kani::unwind(6)] pub fn c02h_elem_chunks_c3() { big_elems::<3>() });
-#[cfg(feature = "c02")] with_stubs!(le_32k, #[kani::unwind(6)] pub fn c02h_elem_chunks_c2() { big_elems::<2>() });
+#[cfg(feature = "c02")] with_stubs!(le_32k, #[kani::unwind(5)] pub fn c02h_elem_chunks_c3() { big_elems::<3>() });
+#[cfg(feature = "c02")] with_stubs!(le_32k, #[kani::unwind(5)] pub fn c02h_elem_chunks_c2() { big_elems::<2>() });
